@@ -541,22 +541,36 @@ lyb_union_print(const struct ly_ctx *ctx, struct lysc_type_union *type_u, struct
     struct ly_err_item *err;
     uint64_t num = 0;
     uint32_t type_idx = 0;
+    LY_ARRAY_COUNT_TYPE u;
     ly_bool dynamic;
     size_t pval_len;
     void *pval;
 
-    /* Find out the index number (type_idx). The call should succeed
-     * because the union_find_type() has already been called in the
-     * lyplg_type_store_union().
+    /* Find out the index number (type_idx) of the member type the value is stored in. It must not be searched for
+     * again without validation, a member skipped before (leafref without its target instance) could be selected
+     * and the value in the printed tree changed.
      */
     if (!ctx) {
         assert(subvalue->ctx_node);
         ctx = subvalue->ctx_node->module->ctx;
     }
-    subvalue->value.realtype->plugin->free(ctx, &subvalue->value);
-    r = union_find_type(ctx, type_u, subvalue, 0, 0, NULL, NULL, &type_idx, NULL, &err);
-    ly_err_free(err);
-    LY_CHECK_RET((r != LY_SUCCESS) && (r != LY_EINCOMPLETE), NULL);
+    LY_ARRAY_FOR(type_u->types, u) {
+        if ((type_u->types[u] == subvalue->value.realtype) || ((type_u->types[u]->basetype == LY_TYPE_LEAFREF) &&
+                (((struct lysc_type_leafref *)type_u->types[u])->realtype == subvalue->value.realtype))) {
+            break;
+        }
+    }
+    if (u < LY_ARRAY_COUNT(type_u->types)) {
+        type_idx = u;
+    } else {
+        /* The call should succeed because the union_find_type() has already been called in the
+         * lyplg_type_store_union().
+         */
+        subvalue->value.realtype->plugin->free(ctx, &subvalue->value);
+        r = union_find_type(ctx, type_u, subvalue, 0, 0, NULL, NULL, &type_idx, NULL, &err);
+        ly_err_free(err);
+        LY_CHECK_RET((r != LY_SUCCESS) && (r != LY_EINCOMPLETE), NULL);
+    }
 
     /* Print subvalue in LYB format. */
     pval = (void *)subvalue->value.realtype->plugin->print(NULL, &subvalue->value, LY_VALUE_LYB, prefix_data, &dynamic,
